@@ -281,6 +281,11 @@ func (E *Engine) encodeOnce(name string, level int, cands map[CandKey]bool) (res
 				if facetLevel[c.Facet] != level {
 					continue
 				}
+				if hasTag(c, "ghost") {
+					// definitional clause of ghost state/functions: assumed at call sites, nothing to prove here
+					fx.note("ghost definition (assumed at call sites): %s: %s", name, c.Src)
+					continue
+				}
 				t, err := ev.EvalBool(c.E)
 				if err != nil {
 					fr.specError(c, err)
